@@ -305,6 +305,42 @@ Section Closed.
     destruct (net_unplug stations (s_station x) (sid x) (occ st)); reflexivity.
   Qed.
 
+  (* the three outcomes of processing a Plugin event, in one closed form *)
+  Lemma process_plugin_outcomes (st : state) ts x :
+    process_event st (EPlugin ts x) =
+    if zmem (s_station x) stations then
+      match occ_get (s_station x) (occ st) with
+      | None => OkS (mkState (iter st) true (Some ts)
+                       (q_insert (EUnplug (s_departure x) x) (queue st)) (occ_set (s_station x) x (occ st))
+                       ((sid x, x) :: filter (fun p => negb (Z.eqb (fst p) (sid x))) (ev_hist st))
+                       (hist st) (calls st) (occ_log st) (num st))
+      | Some y => ErrS "StationOccupiedError"
+                       (set_occ N V st (if Z.eqb (sid y) (sid x) then occ_set (s_station x) x (occ st) else occ st))
+      end
+    else ErrS "KeyError" (set_occ N V st (occ st)).
+  Proof.
+    rewrite process_plugin_eq, net_plugin_eq.
+    destruct (zmem (s_station x) stations); [|reflexivity].
+    destruct (occ_get (s_station x) (occ st)); reflexivity.
+  Qed.
+
+  Lemma process_unplug_outcomes (st : state) ts x :
+    process_event st (EUnplug ts x) =
+    if zmem (s_station x) stations then
+      OkS (mkState (iter st) true (Some ts) (queue st)
+             (match occ_get (s_station x) (occ st) with
+              | Some y => if Z.eqb (sid x) (sid y) then occ_remove (s_station x) (occ st) else occ st
+              | None => occ st
+              end)
+             (ev_hist st) (hist st) (calls st) (occ_log st) (num st))
+    else ErrS "KeyError" (set_occ N V st (occ st)).
+  Proof.
+    rewrite process_unplug_eq, net_unplug_eq.
+    destruct (zmem (s_station x) stations); [|reflexivity].
+    destruct (occ_get (s_station x) (occ st)) as [y|]; [|reflexivity].
+    destruct (sid x =? sid y); reflexivity.
+  Qed.
+
   Lemma process_recompute_eq (st : state) ts :
     process_event st (ERecompute ts) =
     OkS (mkState (iter st) true (last_upd st) (queue st) (occ st) (ev_hist st)
